@@ -78,11 +78,14 @@ package parser
 // both delimiters and at least one more byte. tmd(re, k) is the k-th delimiter.
 
 //@ func parser.formTokenMatcher
-//@ unverified
-//@ props C19 C05
+//@ props C19 C05 C04 C01
+//@ panics nothing
 //@ requires four: len(delims) == 4
 //@ requires nonempty: forall(k, 0, 4, delims[k] != "")
-//@ assigns alloc S$Str
+//@ assigns alloc S$Str, alloc S$Val
+//@ at call Sprintf #1 before assert format: arg0 == "%s-?\\s*(.+?)\\s*-?%s|%s-?\\s*(\\w+)(?:\\s+((?:%v)+?))?\\s*-?%s"
+//@ at call Sprintf #1 before assert operands: len(arg1) == 5 && arg1[0] == box(regexp.QuoteMeta(delims[0]), string) && arg1[1] == box(regexp.QuoteMeta(delims[1]), string) && arg1[2] == box(regexp.QuoteMeta(delims[2]), string) && arg1[4] == box(regexp.QuoteMeta(delims[3]), string)
+//@ loop 1 invariant parts: fresh(exclusion) && len(exclusion) <= _pos && (_pos > 0 ==> len(exclusion) >= 1) && sameold("S$Str")
 //@ ensures built: result != nil && forall(k, 0, 4, tmd(result, k) == delims[k])
 
 // Scan is parametric in the delimiters (C19): the effective delimiter k is the caller's
